@@ -439,6 +439,12 @@ class LinEval:
             if bias is not None:
                 out = out.add(self.mat(bias))
             return out
+        if f in ("torch.matmul", "torch.mm") and len(e.args) == 1 and isinstance(e.args[0], ast.Starred) and isinstance(e.args[0].value, ast.Call):
+            # torch.matmul(*self._pair()): the two components of the pair, in order
+            inner = e.args[0].value
+            a = ast.Call(func=ast.Name(id="__component__", ctx=ast.Load()), args=[inner, ast.Constant(value=0)], keywords=[])
+            b = ast.Call(func=ast.Name(id="__component__", ctx=ast.Load()), args=[inner, ast.Constant(value=1)], keywords=[])
+            return self.mat(a).mul(self.mat(b))
         if f in ("torch.matmul", "torch.mm") and len(e.args) == 2:
             return self.mat(e.args[0]).mul(self.mat(e.args[1]))
         if last in ("matmul", "mm") and recv is not None and not recv_is_mod and len(e.args) == 1:
